@@ -97,6 +97,7 @@ namespace sim
         {
             std::atomic<long> next;
             std::atomic<long> cur[256];
+            std::atomic<long> since[256];  // wall-clock second at which cur[w] was set (watchdog for in-process cases)
             std::atomic<int> stop;
         };
 
@@ -533,6 +534,7 @@ namespace sim
                 long i = sh->next.fetch_add(1);
                 if (i >= cases)
                     break;
+                sh->since[w].store((long)nowWall());
                 sh->cur[w].store(i);
                 uint64_t cs = caseSeed(o, i);
                 Json plan = e.generate(o, cs, i);
@@ -936,6 +938,8 @@ namespace sim
         sh->stop.store(0);
         for (auto &c : sh->cur)
             c.store(-1);
+        for (auto &c : sh->since)
+            c.store(0);
         double deadline = t0 + budget;
         struct W
         {
@@ -1004,6 +1008,19 @@ namespace sim
             int pr = poll(pf.data(), pf.size(), 1000);
             if (pr < 0 && errno != EINTR)
                 break;
+            // watchdog: an in-process case that has been running far beyond the CPU limit is killed; the dead worker is
+            // then handled like a crashed one (its case is classified in an isolated child under the CPU rlimit)
+            if (!e.forkPerCase())
+            {
+                long nowS = (long)nowWall();
+                for (int w = 0; w < o.jobs; w++)
+                    if (ws[(size_t)w].fd >= 0 && sh->cur[(size_t)w].load() >= 0 && sh->since[(size_t)w].load() > 0 &&
+                        nowS - sh->since[(size_t)w].load() > 3 * e.cpuLimit(o) + 10)
+                    {
+                        kill(ws[(size_t)w].pid, SIGKILL);
+                        sh->since[(size_t)w].store(0);
+                    }
+            }
             for (size_t k = 0; k < pf.size(); k++)
             {
                 if (!(pf[k].revents & (POLLIN | POLLHUP | POLLERR)))
